@@ -447,6 +447,13 @@ func (t *traceClient) Subscribe(ctx context.Context, q client.Query, clientType 
 	}
 	err := t.Client.Subscribe(ctx, q, clientType...)
 	t.w.mu.Lock()
+	if len(t.w.attempts) == idx {
+		// The attempt never reached the registered constructor (a query the
+		// client rejects before it tries a client type): a placeholder keeps
+		// the indices of underlying attempts and of constructed transports
+		// aligned; the scripted attempt of that index is skipped.
+		t.w.attempts = append(t.w.attempts, &attemptState{idx: idx, script: Attempt{Conn: "none", Sub: "ok", End: "err"}, ctx: ctx, closed: make(chan struct{})})
+	}
 	t.w.nEnd++
 	t.w.events = append(t.w.events, event{Kind: "sub-end", Attempt: idx, At: t.w.now(), Note: fmt.Sprint(err)})
 	t.w.mu.Unlock()
